@@ -42,16 +42,50 @@ class Stub(object):
         return bytes(out)
 
 
+class FailingStub(Stub):
+    """a cipher object that fails transiently: while armed, its k-th block operation raises (a user-supplied cipher is free
+    to do that); the mode object must be as good as new for the next request"""
+
+    def __init__(self, blocksize):
+        Stub.__init__(self, blocksize)
+        self.left = None
+
+    def arm(self, k):
+        self.left = k
+
+    def disarm(self):
+        self.left = None
+
+    def _tick(self):
+        if self.left is not None:
+            self.left -= 1
+            if self.left <= 0:
+                self.left = None
+                raise RuntimeError('transient failure of the block cipher')
+
+    def enc(self, b):
+        self._tick()
+        return Stub.enc(self, b)
+
+    def dec(self, c):
+        self._tick()
+        return Stub.dec(self, c)
+
+
 REAL = {'aes128': 16, 'aes192': 24, 'aes256': 32, 'des': 8, 'tdea': 24, 'serpent': 32, 'tf256': 32, 'tf512': 64, 'tf1024': 128}
 
 
 def cipher(cid):
+    if cid.startswith('failing'):
+        return FailingStub(int(cid[7:]))
     if cid.startswith('stub'):
         return Stub(int(cid[4:]))
     return F.make(cid, ramp(REAL[cid], 9, 2), ramp(16, 3, 1))
 
 
 def blen(cid):
+    if cid.startswith('failing'):
+        return int(cid[7:]) // 8
     return int(cid[4:]) // 8 if cid.startswith('stub') else F.BLOCKLEN[cid]
 
 
@@ -291,6 +325,8 @@ class ModeSys(HSystem):
         ev = [('enc', i) for i in range(3)] + [('dec', i) for i in range(3)] + [('dec-of-own-enc', 0), ('enc-of-own-enc', 1)]
         if self.mode == 'CTR':
             ev += [('enc2', 0), ('dec2', 2), ('enc2', 2)]
+        if self.cid.startswith('failing'):
+            ev += [('failing-enc', 1), ('failing-enc', 2), ('failing-dec', 1), ('failing-dec', 2)]
         return ev
 
     def model(self, o, direction, data):
@@ -310,6 +346,13 @@ class ModeSys(HSystem):
     def apply(self, o, ev):
         t, i = ev
         obj = o['o2'] if t.endswith('2') else o['o']
+        if t.startswith('failing'):
+            o['exp'] = 'raises'
+            o['c'].arm(i)
+            try:
+                return getattr(obj, t[8:])(msg(3 * self.n, 0))      # at least two block operations in every mode and direction
+            finally:
+                o['c'].disarm()
         if t == 'dec-of-own-enc':
             data = self.model(o, 'enc', self.X[i])
             o['exp'] = self.model(o, 'dec', data)
@@ -323,11 +366,14 @@ class ModeSys(HSystem):
         return getattr(obj, d)(self.X[i])
 
     def judge(self, ctx, hist, ev, res, o):
+        if o['exp'] == 'raises':
+            ctx.eq('C05/%s/object-history/failure-of-the-block-cipher-swallowed' % self.mode, res, ('exc', 'RuntimeError'))
+            return
         ctx.eq('C05/%s/object-history/%s' % (self.mode, ev[0]), res, ('ok', o['exp']))
 
 
 def mode_systems(tier):
-    cids = ['stub64', 'aes128'] + (['des', 'tf256'] if tier == 'thorough' else [])
+    cids = ['stub64', 'failing64', 'aes128'] + (['des', 'tf256'] if tier == 'thorough' else [])
     return {'%s-%s' % (m, cid): ModeSys(cid, m) for cid in cids for m in ('ECB', 'CBC', 'CTR')}
 
 
@@ -455,7 +501,7 @@ def subchecks():
         hsub('ctr-counter-histories', ctr_systems, lambda tier: 3 if tier == 'quick' else 4,
              bound='one CTR object with a DefaultCounter; events: counter.setup with 3 (nonce,count) pairs (one 2 steps before the wrap), enc of 0 / 1 / 2 blocks+1 bytes, dec; all histories to depth 3 (thorough 4); every enc/dec equals SP 800-38A under the configuration set last'),
         hsub('mode-object-histories', mode_systems, lambda tier: 3 if tier == 'quick' else 4,
-             bound='one ECB / CBC object (no padding) and a pair of CTR objects sharing one DefaultCounter, over a stub and AES (thorough + DES, Threefish-256): enc / dec of 3 fixed values, dec and enc of the object\'s own ciphertexts, calls on the second CTR object; all histories to depth 3 (thorough 4) vs the stateless SP 800-38A model'),
+             bound='one ECB / CBC object (no padding) and a pair of CTR objects sharing one DefaultCounter, over a stub, a stub that fails transiently on its 1st or 2nd block operation (the request must raise, the next ones must be unaffected) and AES (thorough + DES, Threefish-256): enc / dec of 3 fixed values, dec and enc of the object\'s own ciphertexts, calls on the second CTR object; all histories to depth 3 (thorough 4) vs the stateless SP 800-38A model'),
         Sub('cts', pts_cts, run_cts, engine='P', chunk=1,
             bound='CTS_ECB / CTS_CBC over the stub ciphers (block >= 16 bits) and 9 real ciphers, every |M| >= one block as above: length, IV first, round trip with a fresh object, whole-block case equals the plain mode'),
         Sub('sp800-38a-vectors', pts_nist, run_nist, engine='P', bound='SP 800-38A F.1.1, F.2.1, F.5.1 (AES-128)'),
